@@ -2,7 +2,10 @@
 CLAIMED = True
 
 CFG = dict(
-    rule="each case = a prepared scripted source (real AnySource/PrepareRun, 1..4 channels, 4 record sizes, projectors on none/all/some channels, "
+    rule="each case = a scripted source running under the REAL Start/CoreLoop (requests, blocks and every access to the processors go through the "
+         "loop's queue / block channel; in 25% of the cases the source ENDS BY ITSELF (error block) before 4..15% of the requests - also while writing "
+         "is paused - and is started again through the real Start, with requests, redundant starts/ends in between; case 4 of every run is scripted) "
+         "(real AnySource/PrepareRun, 1..4 channels, 4 record sizes, projectors on none/all/some channels, "
          "0..8 pre-existing run directories under two base paths) + a history of 1..40 requests sent through the real SourceControl.WriteControl RPC "
          "(request queue serviced as the core loop does): START over all 8 subsets of {LJH2.2, OFF, LJH3} with path given / omitted, STOP, PAUSE, "
          "UNPAUSE, 'UNPAUSE label', malformed UNPAUSE, invalid words, mixed case and suffixed words (PAUSED, STOP now, ...); 0..70% of the requests are "
@@ -57,4 +60,5 @@ THEOREMS = [
     ("DastardV.Props.C06", "DastardV.C06.C06_start_fresh_dir"),
     ("DastardV.Props.C06", "DastardV.C06.C06_stop_closes_all"),
     ("DastardV.Props.C06", "DastardV.C06.C06_bad_map_refused"),
+    ("DastardV.Props.C06", "DastardV.C06.C06_source_end_stops_writing"),
 ]
